@@ -17,7 +17,7 @@ class StepShape:
     def __init__(self, m, f, world_field):
         self.m = m
         self.f = f
-        self.q = q = m.q(f)
+        self.q = q = m.qi(f)   # inlined view: private helpers of the crate spliced in
         self.obj = world_field          # 'order_book' / 'market'
         self.problems = []
 
